@@ -12,3 +12,12 @@ func verifYield(site string) {
 		f(site)
 	}
 }
+
+// VerifYieldID is like VerifYield for sites that concern one chunk ID.
+var VerifYieldID func(site string, id ChunkID)
+
+func verifYieldID(site string, id ChunkID) {
+	if f := VerifYieldID; f != nil {
+		f(site, id)
+	}
+}
